@@ -71,6 +71,9 @@ def classify(rec):
     sql = rec.get("sql") or ""
     v = rec["verdict"]
     wcols = pg.meta.get("wcols") or {}
+    # F56: a range frame with a numeric offset over several sort keys (or none) compiles to SQL no engine accepts
+    if v == "sql-err" and pg.meta.get("range_invalid") and W.RANGE_OFFSET_MSG in str(rec.get("sqlite")):
+        return "F56-range-offset-without-single-sort-key"
     # F51: a window function written directly as a sort key is lowered without any window (no OVER)
     direct = [m for m in wcols.values() if m.get("sortdirect")]
     if direct and v in ("rows", "sql-err"):
@@ -173,9 +176,7 @@ def directed_cases(ck):
     frames = W.all_frames()
     for part in (None, "g"):
         for sort in W.SORTS:
-            fl = [f for f in frames if (f[0] != "range" or W.range_ok(sort))]
-            if sort == "none":
-                fl = [f for f in fl if f[0] != "range"]
+            fl = [f for f in frames if W.range_frame_ok(sort, f)]
             for fr in fl:
                 proto = W.Case(part, sort, fr, ())
                 reps = 4 if ck.thorough else 2
@@ -225,9 +226,7 @@ def f22_cases(ck):
     for part in (None, "g"):
         for sort in ("id", "-id", "c", "none", "c,id"):
             for fr in frames:
-                if fr[0] == "range" and not W.range_ok(sort):
-                    continue
-                if sort == "none" and fr[0] == "range":
+                if not W.range_frame_ok(sort, fr):
                     continue
                 if not ck.thorough and rng.random() > 0.6:
                     continue
@@ -237,7 +236,7 @@ def f22_cases(ck):
     for _ in range(ck.n(120, 600)):
         sort = rng.choice(["id", "-id", "c,id"])
         fr = rng.choice(frames)
-        if fr[0] == "range" and not W.range_ok(sort):
+        if not W.range_frame_ok(sort, fr):
             continue
         part = rng.choice([None, "g"])
         pl, post = rng.choice([("filter", "none"), ("derive", "filter"), ("derive", "aggregate"), ("sort", "take")])
@@ -283,6 +282,30 @@ def empty_range_cases(ck):
                     rng.shuffle(pool)
                     fns = tuple(W.pick_fns(rng, proto, ["id", "a", "b", "c", "g"], 1, pool=[f])[0] for f in pool[:3])
                     cases.append(W.Case(part, sort, (kind, a, b), fns, "derive"))
+    return cases
+
+
+def range_x_cases(ck):
+    """range frames beyond one ascending key: descending single keys with every bound; several keys, NULL keys and no
+    sort with every offset-free bound pair (peers); and the combinations no engine accepts (offset x several keys / none)"""
+    rng = ck.rng
+    cases = []
+    rframes = [f for f in W.all_frames(kinds=("range",)) if f[0] == "range"]
+    for part in (None, "g"):
+        for sort in ("-id", "-c", "c,id", "-c,id", "a,-id", "a", "none"):
+            for fr in rframes:
+                ok = W.range_frame_ok(sort, fr)
+                if not ok and not W.range_invalid(sort, fr):
+                    continue
+                if not ok and not ck.thorough and rng.random() > 0.25:
+                    continue
+                proto = W.Case(part, sort, fr, ())
+                pool = [f for f in W.FUNCS if not W.f22_class(f, fr, sort != "none")]
+                rng.shuffle(pool)
+                fns = tuple(W.pick_fns(rng, proto, ["id", "a", "b", "c", "g"], 1, pool=[f])[0] for f in (["sum", "count"] + pool)[:3])
+                c = W.Case(part, sort, fr, fns, "derive", paren=rng.random() < 0.5)
+                if W.valid(c):
+                    cases.append(c)
     return cases
 
 
